@@ -184,27 +184,36 @@ theorem lit_ne {e : Exc} (h : e = .other ∨ e = .syntax ∨ e = .outOfFuel ∨ 
     e ≠ e0 := by
   rcases hfor with h0 | h0 <;> rcases h with h | h | h | h <;> simp [h, h0]
 
-omit horc in
-theorem doHook_P {f : F} (hf : FP e0 f) {cfg : Cfg} {v : LoopVars} {s : St} {e : Exc} {s' : St}
-    (heq : doHook env f cfg v s = (.raise e, s')) : Prov e0 s e s' := by
+theorem doHook_P {f : F} (hf : FP e0 f) {fuel : Nat} {cfg : Cfg} {v : LoopVars} {s : St}
+    {e : Exc} {s' : St} (heq : doHook env f fuel cfg v s = (.raise e, s')) : Prov e0 s e s' := by
   unfold doHook at heq
   split at heq
   · split at heq
-    · simp only [Prod.mk.injEq, HookRes.raise.injEq] at heq
-      exact Prov.of_ne (lit_ne hfor (Or.inl heq.1.symm))
-    · split at heq
-      · rename_i e' s1 h1
-        simp only [Prod.mk.injEq, HookRes.raise.injEq] at heq
-        obtain ⟨rfl, rfl⟩ := heq
-        exact hf.spec _ _ _ _ h1
-      · simp at heq
-      · simp only at heq
-        split at heq
-        · split at heq
-          · simp only [Prod.mk.injEq, HookRes.raise.injEq] at heq
-            exact Prov.of_ne (lit_ne hfor (Or.inl heq.1.symm))
-          · split at heq <;> simp at heq
+    · rename_i e' s0 h0
+      simp only [Prod.mk.injEq, HookRes.raise.injEq] at heq
+      obtain ⟨rfl, rfl⟩ := heq
+      unfold hookLead at h0
+      split at h0
+      · exact addCID_P hfor horc h0
+      · simp at h0
+    · rename_i lead s0 h0
+      have l0 : LogExt s s0 := by
+        have := hookLead_rel (L env) fuel s; rw [h0] at this; exact this
+      split at heq
+      · simp only [Prod.mk.injEq, HookRes.raise.injEq] at heq
+        exact Prov.of_ne (lit_ne hfor (Or.inl heq.1.symm))
+      · split at heq
+        · rename_i e' s1 h1
+          simp only [Prod.mk.injEq, HookRes.raise.injEq] at heq
+          obtain ⟨rfl, rfl⟩ := heq
+          exact (hf.spec _ _ _ _ h1).mono l0 (LogExt.refl _)
         · simp at heq
+        · split at heq
+          · split at heq
+            · simp only [Prod.mk.injEq, HookRes.raise.injEq] at heq
+              exact Prov.of_ne (lit_ne hfor (Or.inl heq.1.symm))
+            · split at heq <;> simp at heq
+          · simp at heq
   · simp at heq
 
 omit horc in
@@ -274,7 +283,6 @@ theorem matchedStep_P {cfg : Cfg} {startT : Option Tree} {sn : Option (Option Na
           · simp at heq
       · simp at heq
 
-omit horc in
 theorem blockLoop_P {f : F} (hf : FP e0 f) {cfg : Cfg} {classes : List Cls}
     {startT : Option Tree} {sn : Option (Option Name)} {k i : Nat} {v : LoopVars} {s : St}
     {e : Exc} {s' : St}
@@ -292,14 +300,14 @@ theorem blockLoop_P {f : F} (hf : FP e0 f) {cfg : Cfg} {classes : List Cls}
       · rename_i e' s1 h1
         simp only [Prod.mk.injEq, LoopRes.raise.injEq] at heq
         obtain ⟨rfl, rfl⟩ := heq
-        exact doHook_P hfor hf h1
+        exact doHook_P hfor horc hf h1
       · rename_i t s1 h1
         have l1 : LogExt s s1 := by
-          have := doHook_rel (L env) hf.log cfg v s; rw [h1] at this; exact this
+          have := doHook_rel (L env) hf.log k cfg v s; rw [h1] at this; exact this
         exact (ih heq).mono l1 (LogExt.refl _)
       · rename_i sa h1
         have l1 : LogExt s sa := by
-          have := doHook_rel (L env) hf.log cfg v s; rw [h1] at this; exact this
+          have := doHook_rel (L env) hf.log k cfg v s; rw [h1] at this; exact this
         split at heq
         · rename_i e' sb h2
           simp only [Prod.mk.injEq, LoopRes.raise.injEq] at heq
@@ -452,7 +460,7 @@ theorem blockMatch_P {f : F} (hf : FP e0 f) {fuel : Nat} {cfg : Cfg} {s : St} {e
     refine blockFinish_P hfor (l02.trans (le.trans l2L)) ?_ heq
     intro e' he'
     subst he'
-    exact (blockLoop_P hfor hf hlr).mono (l02.trans le) (LogExt.refl _)
+    exact (blockLoop_P hfor horc hf hlr).mono (l02.trans le) (LogExt.refl _)
 
 omit hfor horc in
 theorem manyLoop_P (env : Env) {f : F} (hfor : Foreign e0) (hf : FP e0 f) {c : Cls} {k : Nat}
